@@ -228,9 +228,18 @@ def run(ctx, rep, tier):
     n_ctx = 0
     for q, f in model.functions.items():
         for c in calls_in(f, nested=False):
-            if isinstance(c.func, ast.Attribute) and c.func.attr == "_lookup_named_entity" and c.args and isinstance(c.args[0], (ast.Tuple, ast.List, ast.Set, ast.SetComp)):
+            if not (isinstance(c.func, ast.Attribute) and c.func.attr == "_lookup_named_entity" and c.args):
+                continue
+            arg = c.args[0]
+            via = ""
+            if isinstance(arg, ast.Name) and arg.id in model.module_assigns:
+                # the kinds named once at module level: what counts is the container the constant is
+                via = f" (module constant {arg.id})"
+                arg = model.module_assigns[arg.id]
+            unordered = isinstance(arg, (ast.Set, ast.SetComp)) or (isinstance(arg, ast.Call) and ast.unparse(arg.func) in ("set", "frozenset"))
+            if isinstance(arg, (ast.Tuple, ast.List)) or unordered:
                 n_ctx += 1
-                rep.check(isinstance(c.args[0], (ast.Tuple, ast.List)), "C20.b2", q, f"lookup context {ast.unparse(c.args[0])}",
+                rep.check(not unordered, "C20.b2", q, f"lookup context {ast.unparse(arg)}{via}",
                           "a set of kinds is searched first-match-wins: which kind wins for a name declared as both depends on PYTHONHASHSEED", line=c.lineno)
     if n_ctx < 2:
         raise AnalysisError("C20.b2: multi-kind lookups not found")
@@ -354,3 +363,71 @@ _run_f20 = run
 def run(ctx, rep, tier):
     _run_f20(ctx, rep, tier)
     _id_keyed_store_identity(ctx, rep, tier)
+
+
+
+# ---------------------------------------------------------------------------------------------------------------- C20.g
+PROCESS_SETTERS = ("sys.setrecursionlimit", "sys.setswitchinterval", "os.chdir", "os.putenv", "os.umask", "locale.setlocale", "random.seed", "gc.disable", "gc.enable",
+                   "warnings.simplefilter", "warnings.filterwarnings", "threading.stack_size", "resource.setrlimit")
+
+
+def process_state_changes(tree):
+    """(call source, restored?) for every call in `tree` that changes a process-wide interpreter setting; restored = the call stands in a try whose `finally`
+    calls the same setter again (or it is itself inside a `finally`)."""
+    parents = {}
+    for n in ast.walk(tree):
+        for ch in ast.iter_child_nodes(n):
+            parents[ch] = n
+    out = []
+    for n in ast.walk(tree):
+        if isinstance(n, ast.Call) and ast.unparse(n.func) in PROCESS_SETTERS:
+            name = ast.unparse(n.func)
+            restored = False
+            child, p = n, parents.get(n)
+            while p is not None:
+                if isinstance(p, ast.Try):
+                    if any(child is x or any(child is y for y in ast.walk(x)) for x in p.finalbody):
+                        restored = True      # this call IS the restoring one
+                        break
+                    if any(isinstance(c, ast.Call) and ast.unparse(c.func) == name for x in p.finalbody for c in ast.walk(x)):
+                        restored = True
+                        break
+                if isinstance(p, (ast.FunctionDef, ast.AsyncFunctionDef)):
+                    # a setter directly in front of a try/finally that restores it (the usual shape: set; try: ...; finally: restore)
+                    body = p.body
+                    for i, st in enumerate(body):
+                        if any(n is y for y in ast.walk(st)):
+                            nxt = body[i + 1] if i + 1 < len(body) else None
+                            if isinstance(nxt, ast.Try) and any(isinstance(c, ast.Call) and ast.unparse(c.func) == name for x in nxt.finalbody for c in ast.walk(x)):
+                                restored = True
+                    break
+                child, p = p, parents.get(p)
+            out.append((ast.unparse(n)[:80], restored, n.lineno))
+    return out
+
+
+def _process_state_is_restored(ctx, rep, tier):
+    """C20.g: a compilation does not leave process-wide interpreter settings changed - not on the failing way out either. A recursion limit raised for one
+    compilation and restored only on success makes the verdict for the next program in the same process depend on what failed before it."""
+    rep.rule("C20.g", "process-wide interpreter settings (recursion limit, switch interval, cwd, locale, gc, warnings filters, rlimits) are not changed by the compiler, or "
+                      "restored in a `finally`: what was compiled - or failed to compile - earlier in the process does not change a later verdict")
+    found = process_state_changes(ctx.model.tree)
+    for src, restored, line in found:
+        rep.check(restored, "C20.g", "<module>", f"{src}", f"`{src}` changes a process-wide setting and is not restored on every way out (no try/finally calling the setter again): after a failed "
+                  "compilation the next one in the same process runs under different limits - a program refused when compiled first is accepted when compiled second", line=line)
+    # the detector itself: a positive example that must be recognised on every run (the clean tree has no instance)
+    fixture = ast.parse("import sys\ndef wrapper(f):\n    old = sys.getrecursionlimit()\n    sys.setrecursionlimit(old + 1500)\n    r = f()\n    sys.setrecursionlimit(old)\n    return r\n"
+                        "def wrapper2(f):\n    old = sys.getrecursionlimit()\n    sys.setrecursionlimit(old + 1500)\n    try:\n        return f()\n    finally:\n        sys.setrecursionlimit(old)\n")
+    fx = process_state_changes(fixture)
+    if [r for _, r, _ in fx] != [False, False, True, True]:
+        raise AnalysisError(f"C20.g: the detector does not classify its fixture as expected ({fx})")
+    if not found:
+        rep.ok("C20.g", "<module>", "no call changes a process-wide interpreter setting (detector verified on its fixture)")
+
+
+_run_g20pre = run
+
+
+def run(ctx, rep, tier):
+    _run_g20pre(ctx, rep, tier)
+    _process_state_is_restored(ctx, rep, tier)
